@@ -233,6 +233,14 @@ func mapField(
 			}).Lift(lift...)
 		}
 		sourceMatch, err := xtype.FindExactField(nextSource, path[i])
+		if err == nil && !xtype.AccessibleMember(nextSource, sourceMatch.Name, ctx.OutputPackagePath) {
+			cause := fmt.Sprintf("Cannot read unexported field or method %q of %s from the output package.\n\nSee https://goverter.jmattheis.de/guide/unexported-field", sourceMatch.Name, nextSource.T)
+			return nil, nil, nil, nil, false, NewError(cause).Lift(&Path{
+				Prefix:     ".",
+				SourceID:   sourceMatch.Name,
+				SourceType: "???",
+			}).Lift(lift...)
+		}
 		if err == nil {
 			nextSource = sourceMatch.Type
 			nextIDCode = nextIDCode.Clone().Dot(sourceMatch.Name)
